@@ -19,6 +19,8 @@ def Ctx.joinTopic (c : Ctx) (a : Actor) (tn : TName) : Ctx × Option Topic :=
     match c.w.row? tn with
     | none => (c.emit a.sid (ctrl 404 tn), none)
     | some r =>
+      -- a soft-deleted topic is gone for the clients (init_topic.go:631-634)
+      if r.state = 20 then (c.emit a.sid (ctrl 404 tn), none) else
       let (c, ok) := c.call "SubsForTopic"
       if !ok then (c.emit a.sid (ctrl 500 tn), none) else
       let t := loadTopic r
@@ -156,6 +158,55 @@ def Ctx.opLeave (c : Ctx) (a : Actor) (tn : TName) (unsub : Bool) : Ctx :=
         (c.emit a.sid (ctrl 200 tn)).putLive t
 
 /-! ### {pub} (session.go:685-731, topic.go:963-1101, store.go:666-712) -/
+
+/-- adapter effect of TopicUpdateOnMessage: the stored counter -/
+def effBumpSeq (tn : TName) (seq : Int) (w : World) : World :=
+  match w.row? tn with
+  | some r => w.setRow { r with seq := seq }
+  | none => w
+
+/-- adapter effect of MessageSave -/
+def effSaveMsg (tn : TName) (m : MsgRow) (w : World) : World :=
+  match w.row? tn with
+  | some r => w.setRow { r with msgs := r.msgs ++ [m] }
+  | none => w
+
+/-- store.Messages.Save (store.go:666-712): counter first, then the message, then - for a reader - the sender's marks (a
+failure of that last write is ignored). `none` = the save failed; `some marked` = saved, and whether the marks were stored. -/
+def Ctx.saveMessage (c : Ctx) (tn : TName) (m : MsgRow) (readBySender : Bool) : Ctx × Option Bool :=
+  let (c, ok) := c.call "TopicUpdateOnMessage" (effBumpSeq tn m.seq)
+  if !ok then (c, none) else
+  let (c, ok) := c.call "MessageSave" (effSaveMsg tn m)
+  if !ok then (c, none) else
+  if readBySender then
+    let (c, marked) := c.subsUpdate tn m.sender (fun s => { s with readId := m.seq, recvId := m.seq })
+    (c, some marked)
+  else (c, some false)
+
+/-- the headers as stored and delivered: the client's `sender` is dropped, the server adds its own for an on-behalf-of publish -/
+def pubHead (a : Actor) (head : List (String × String)) : List (String × String) :=
+  let head := head.filter (·.1 ≠ "sender")
+  if a.sessUid ≠ a.uid then (head ++ [("sender", a.sessUid)]).mergeSort (fun x y => x.1 ≤ y.1) else head
+
+/-- pushForData: readers with presence, not deleted (push.go:23-83) -/
+def pushRcpt (t : Topic) : List Uid :=
+  (t.perUser.filter (fun (_, p) => isReader (eff p) ∧ isPresencer (eff p) ∧ !p.deleted)).map (·.1)
+
+/-- after a successful save (topic.go:1004-1060): counter, sender's cached marks, acknowledgement, fan-out, push -/
+def Ctx.deliverPub (c : Ctx) (t : Topic) (a : Actor) (m : MsgRow) (marked noEcho : Bool) : Ctx :=
+  let tn := t.name
+  let pud := t.pud a.uid
+  let found := (t.pud? a.uid).isSome
+  let t := { t with lastId := m.seq }
+  -- the cached marks follow the stored ones (topic.go:1008-1014)
+  let t := if found ∧ marked then t.setPud a.uid { pud with readId := m.seq, recvId := m.seq } else t
+  let c := c.emit a.sid (ctrl 202 tn s!" seq={m.seq}")
+  let c := c.fanoutData t (if noEcho then a.sid else "") (dataFrame tn a.uid m.seq m.head m.content)
+  let rcpt := pushRcpt t
+  let c := if rcpt.isEmpty then c else
+    { c with pushes := c.pushes ++ [s!"push what=msg topic={tn} seq={m.seq} to=\{{",".intercalate (rcpt.mergeSort (· ≤ ·))}} chan=-"] }
+  c.putLive t
+
 def Ctx.opPub (c : Ctx) (a : Actor) (tn : TName) (content : String) (head : List (String × String)) (noEcho : Bool) : Ctx :=
   if !c.w.attached a.sid tn then c.emit a.sid (ctrl 409 tn) else
   match c.w.live? tn with
@@ -164,34 +215,12 @@ def Ctx.opPub (c : Ctx) (a : Actor) (tn : TName) (content : String) (head : List
     if t.inactive then c.emit a.sid (ctrl 503 tn) else
     if t.readOnly then c.emit a.sid (ctrl 403 tn) else
     let pud := t.pud a.uid
-    let found := (t.pud? a.uid).isSome
     if !isWriter (eff pud) then c.emit a.sid (ctrl 403 tn) else
-    -- the sender header is server-controlled
-    let head := head.filter (·.1 ≠ "sender")
-    let head := if a.sessUid ≠ a.uid then (head ++ [("sender", a.sessUid)]).mergeSort (fun x y => x.1 ≤ y.1) else head
-    let seq := t.lastId + 1
-    let (c, ok) := c.call "TopicUpdateOnMessage" (fun w => match w.row? tn with
-      | some r => w.setRow { r with seq := seq }
-      | none => w)
-    if !ok then c.emit a.sid (ctrl 500 tn) else
-    let (c, ok) := c.call "MessageSave" (fun w => match w.row? tn with
-      | some r => w.setRow { r with msgs := r.msgs ++ [{ seq := seq, sender := a.uid, head := head, content := some content }] }
-      | none => w)
-    if !ok then c.emit a.sid (ctrl 500 tn) else
-    -- sender's marks in the store: only for readers; a failure here is ignored
-    let (c, marked) := if isReader (eff pud) ∧ a.uid ≠ "" then
-        c.subsUpdate tn a.uid (fun s => { s with readId := seq, recvId := seq })
-      else (c, false)
-    let t := { t with lastId := seq }
-    let t := if found then t.setPud a.uid { pud with readId := seq, recvId := seq } else t
-    let c := c.emit a.sid (ctrl 202 tn s!" seq={seq}")
-    let c := c.fanoutData t (if noEcho then a.sid else "") (dataFrame tn a.uid seq head (some content))
-    -- pushForData: readers with presence, not deleted (push.go:23-83)
-    let rcpt := (t.perUser.filter (fun (_, p) => isReader (eff p) ∧ isPresencer (eff p) ∧ !p.deleted)).map (·.1)
-    let c := if rcpt.isEmpty then c else
-      { c with pushes := c.pushes ++ [s!"push what=msg topic={tn} seq={seq} to=\{{",".intercalate (rcpt.mergeSort (· ≤ ·))}} chan=-"] }
-    let _ := marked
-    c.putLive t
+    let m : MsgRow := { seq := t.lastId + 1, sender := a.uid, head := pubHead a head, content := some content }
+    let (c, saved) := c.saveMessage tn m (isReader (eff pud) && a.uid ≠ "")
+    match saved with
+    | none => c.emit a.sid (ctrl 500 tn)
+    | some marked => c.deliverPub t a m marked noEcho
 
 /-! ### {note} (session.go:1238-1305, topic.go:1103-1235) -/
 def Ctx.opNote (c : Ctx) (a : Actor) (tn : TName) (what : String) (seqArg : Int) : Ctx :=
@@ -318,7 +347,8 @@ def queryDeleted (r : TopicRow) (forUser : Uid) (since before limit : Int) : Lis
   let lim := if limit > 0 ∧ limit < 1024 then limit else 1024
   let rows := (r.dellog.filter (fun d => (d.forUser = "" ∨ d.forUser = forUser) ∧ lower ≤ d.delId ∧ d.delId ≤ upper))
   -- LIMIT applies to dellog rows (one per range)
-  let flat := (rows.flatMap (fun d => d.ranges.map (fun rg => (d.delId, rg)))).take lim.toNat
+  -- a row whose `hi` is at most `low + 1` is read back as the single id `low` (mysql/adapter.go:2670-2672)
+  let flat := (rows.flatMap (fun d => d.ranges.map (fun rg => (d.delId, (if rg.hi ≤ rg.low + 1 then ⟨rg.low, 0⟩ else rg : Range))))).take lim.toNat
   let maxId := flat.foldl (fun m x => max m x.1) 0
   (normalize (sortRanges (flat.map (·.2))), maxId)
 
